@@ -388,6 +388,9 @@ func Generate(rng *rand.Rand, prop, tier string, gomaxprocs int) *Desc {
 			x.Stuck = nil // nothing may wait for a cancellation that only comes when the caller looks again
 		}
 		x.SlowEmit = emitters(p) > 0 && rng.Intn(3) == 0
+		if prop == "C12" {
+			x.ShareErr = emitters(p) > 0 && rng.Intn(3) == 0
+		}
 		x.SharedErr = rng.Intn(5) == 0
 		if prop == "C11" && p.Flow != nil && rng.Intn(4) == 0 {
 			setHold(rng, p, &x)
